@@ -549,8 +549,14 @@ def tr_num_lr(fn):
         fail(fn, 'axis loop of _resize_discr not found')
     body = loops[0].body
     first = body[0]
-    if not (isinstance(first, ast.If) and ast.unparse(first.test) == 'affected[axis]'):
-        fail(first, 'expected `if affected[axis]:` first in the axis loop')
+    guarded = isinstance(first, ast.If) and ast.unparse(first.test) == 'affected[axis]'
+    if not guarded:
+        # no `if affected[axis]:` guard: the num_l / num_r computation runs for every axis (then an offset given
+        # for an axis of unchanged size moves the range -- the theorem unaffected_axis_keeps_interval fails)
+        k_try = [k for k, st in enumerate(body) if isinstance(st, ast.Try)]
+        if not k_try or k_try[0] == 0:
+            fail(first, 'expected `if affected[axis]:` or the unguarded num_l / num_r computation')
+        unguarded = body[:k_try[0]]
 
     def block(stmts, env):
         """straight-line assignments and nested ifs; every leaf ends with (num_l, num_r)"""
@@ -588,18 +594,22 @@ def tr_num_lr(fn):
         return 'if %s\n    then %s\n    else %s' % (bool_test(t, env), block(node.body, env.copy()), els_txt(env.copy()))
 
     env = Env(['n_orig', 'n_new'])
-    then = block(first.body, env.copy())
-    els = block(first.orelse, env.copy())
-    txt = ('Definition num_lr (n_orig n_new : Z) (off : option Z) : Z * Z :=\n'
-           '  if negb (n_new =? n_orig)    (* affected[axis] = np.not_equal(newshp, discr.shape)[axis] *)\n'
-           '  then %s\n  else %s.\n' % (then, els))
+    if guarded:
+        then = block(first.body, env.copy())
+        els = block(first.orelse, env.copy())
+        txt = ('Definition num_lr (n_orig n_new : Z) (off : option Z) : Z * Z :=\n'
+               '  if negb (n_new =? n_orig)    (* affected[axis] = np.not_equal(newshp, discr.shape)[axis] *)\n'
+               '  then %s\n  else %s.\n' % (then, els))
+    else:
+        txt = ('Definition num_lr (n_orig n_new : Z) (off : option Z) : Z * Z :=\n'
+               '  (* NO `if affected[axis]` guard in the source *)\n  %s.\n' % block(unguarded, env.copy()))
     # new_minpt / new_maxpt
     carriers = {'grid_min[axis]': 'grid_min', 'grid_max[axis]': 'grid_max', 'cell_size[axis]': 'cell_size'}
     if not any(same(st, 'grid_min, grid_max = discr.grid.min(), discr.grid.max()') for st in fn.body) or \
             not any(same(st, 'cell_size = discr.cell_sides') for st in fn.body):
         fail(fn, 'grid_min / grid_max / cell_size definitions changed')
     defs = {}
-    for st in body[1:]:
+    for st in body:
         if isinstance(st, ast.If) and isinstance(st.test, ast.Name) and st.test.id in ('on_bdry_l', 'on_bdry_r'):
             def app(stmts):
                 if not (len(stmts) == 1 and isinstance(stmts[0], ast.Expr) and isinstance(stmts[0].value, ast.Call)
